@@ -103,22 +103,45 @@ theorem pressure_netTorque (fx : FX R) (x : Nat → V3 R) (F : List Face) (P : R
     V3.smul_zero']
 
 
-theorem volTerm_eq (a b c : V3 R) : volTerm a b c = V3.dot a (V3.cross b c) := by
+/-- the generated 6-term formula: the triple product of the positions relative to `o` -/
+theorem volTerm_eq (o a b c : V3 R) : volTerm o a b c = V3.dot (a - o) (V3.cross (b - o) (c - o)) := by
   simp only [volTerm]; v3c; ring
 
-/-- six times the signed volume: the sum the loop of `compute_volume` accumulates -/
-def signedVol6 (x : Nat → V3 R) (F : List Face) : R := (F.map (fun f => volTerm (x f.a) (x f.b) (x f.c))).sum
+theorem volTerm_zero (a b c : V3 R) : volTerm 0 a b c = V3.dot a (V3.cross b c) := by
+  rw [volTerm_eq]; simp only [sub_zero]
 
-theorem cellVol6_eq (x : Nat → V3 R) (F : List Face) : cellVol6 x F = signedVol6 x F := by
-  unfold cellVol6 signedVol6; rw [foldl_add_eq_sum]; simp
+theorem volTerm_centre (o a b c : V3 R) : volTerm o a b c = volTerm 0 (a - o) (b - o) (c - o) := by
+  rw [volTerm_eq, volTerm_zero]
 
-theorem cellVolume_eq (x : Nat → V3 R) (F : List Face) : cellVolume x F = |signedVol6 x F / 6| := by
+/-- six times the signed volume Σ_faces p₁·(p₂×p₃): the sum of the generated face term with reference point 0 -/
+def signedVol6 (x : Nat → V3 R) (F : List Face) : R := (F.map (fun f => volTerm 0 (x f.a) (x f.b) (x f.c))).sum
+
+/-- what the loop of `compute_volume` accumulates: the same sum of the positions seen from
+    `get_volume_reference_point()` (first node of the first used face) -/
+def centredVol6 (x : Nat → V3 R) (F : List Face) : R := signedVol6 (fun i => x i - volRefPoint x F) F
+
+theorem cellVol6At_eq (x : Nat → V3 R) (o : V3 R) (F : List Face) :
+    cellVol6At x o F = signedVol6 (fun i => x i - o) F := by
+  unfold cellVol6At signedVol6; rw [foldl_add_eq_sum]
+  simp only [lit_zero, zero_add]
+  congr 1; apply List.map_congr_left; intro f _; exact volTerm_centre _ _ _ _
+
+theorem cellVol6_eq (x : Nat → V3 R) (F : List Face) : cellVol6 x F = centredVol6 x F := by
+  unfold cellVol6 centredVol6 volOrigin; exact cellVol6At_eq x _ F
+
+theorem cellVolume_eq (x : Nat → V3 R) (F : List Face) : cellVolume x F = |centredVol6 x F / 6| := by
   unfold cellVolume volFinish fabsR
   rw [cellVol6_eq]
   simp only [lit_six, lit_zero]
   split_ifs with h
   · rw [abs_of_neg h]
   · rw [abs_of_nonneg (not_lt.mp h)]
+
+theorem volRefPoint_cons (x : Nat → V3 R) (f : Face) (F : List Face) : volRefPoint x (f :: F) = x f.a := by
+  simp [volRefPoint, volRefOfFace]
+
+theorem volRefPoint_nil (x : Nat → V3 R) : volRefPoint x [] = 0 := by
+  simp only [volRefPoint, volRefDefault, List.head?_nil, Option.map_none, Option.getD_none, lit_zero]; rfl
 
 theorem dV_face (x : Nat → V3 R) (i : Nat) (d : V3 R) (a b c : Nat) (hab : a ≠ b) (hbc : b ≠ c) (hca : c ≠ a) (P : R) :
     P * ((V3.dot (if a = i then x i + d else x a)
@@ -179,14 +202,14 @@ theorem pressure_nodeForce_dV (fx : FX R) (x : Nat → V3 R) (F : List Face) (P 
   let g : Nat → Nat → V3 R := fun u v => (if u = i then x v else 0) - (if v = i then x u else 0)
   have hg : ∀ u v, g v u = - g u v := fun u v => by simp only [g, neg_sub]
   have hface : ∀ f ∈ F,
-      P * ((volTerm (Function.update x i (x i + d) f.a) (Function.update x i (x i + d) f.b)
-              (Function.update x i (x i + d) f.c) - volTerm (x f.a) (x f.b) (x f.c)) / 6)
+      P * ((volTerm 0 (Function.update x i (x i + d) f.a) (Function.update x i (x i + d) f.b)
+              (Function.update x i (x i + d) f.c) - volTerm 0 (x f.a) (x f.b) (x f.c)) / 6)
         = V3.dot (nodeForce (let g := faceGeom fx x f; let r := pressureFace g.1 g.2 P;
               [(f.a, r.1), (f.b, r.2.1), (f.c, r.2.2)]) i) d
           - V3.dot (V3.cross (x i) (g f.a f.b + g f.b f.c + g f.c f.a) * (P / 6)) d := by
     intro f hf
     obtain ⟨hab, hbc, hca⟩ := hd f hf
-    simp only [faceGeom, pressureFace_eq fx he _ _ _ P (hs f hf), nodeForce_three, volTerm_eq,
+    simp only [faceGeom, pressureFace_eq fx he _ _ _ P (hs f hf), nodeForce_three, volTerm_zero,
       Function.update_apply, g]
     exact dV_face x i d f.a f.b f.c hab hbc hca P
   rw [List.map_congr_left hface, sum_map_sub']
